@@ -1130,6 +1130,32 @@ example :
       (Cells.cellEnv (fun _ => none) (fun _ _ => none)) .asset ["d", "p", "", "$-1.46"] = .ok ⟨false, 146, 2⟩ := by
   decide +kernel
 
+/-- The statement one would like for the two-column layout (kept visible): the row moves the account by the number in the credit
+cell minus the number in the debit cell, an empty cell counting as nothing. -/
+def C16_credit_minus_debit_stmt : Prop :=
+  ∀ (fm : FieldMap) (rec : List String) (cf df : CsvField) (credit debit : String) (c d a : Dec),
+    fm.value = .creditDebit cf df →
+    fm.resolve .credit cf rec = .ok (some credit) → fm.resolve .debit df rec = .ok (some debit) →
+    Cells.cellDecimal credit = some c → Cells.cellDecimal debit = some d →
+    fm.amount (Cells.cellEnv (fun _ => none) (fun _ _ => none)) .asset rec = .ok a →
+    a.toRat = c.toRat - d.toRat
+
+/-- **known finding F41, as a theorem about the model**: the credit cell wins whenever it is not empty.  A row `0.00 | 400.00`
+(credit cell zero, debit 400.00) is booked as `0.00`: the debit is lost.  (`C16_sign_credit_debit` says the same in general:
+its first alternative asks only that the credit cell be non-empty.) -/
+theorem C16_credit_zero_loses_debit :
+    (⟨.column 0, .column 1, .creditDebit (.column 2) (.column 3), [], 3⟩ : FieldMap).amount
+      (Cells.cellEnv (fun _ => none) (fun _ _ => none)) .asset ["d", "p", "0.00", "400.00"] = .ok ⟨false, 0, 2⟩ := by
+  decide +kernel
+
+theorem not_C16_credit_minus_debit : ¬ C16_credit_minus_debit_stmt := by
+  intro h
+  have := h ⟨.column 0, .column 1, .creditDebit (.column 2) (.column 3), [], 3⟩ ["d", "p", "0.00", "400.00"]
+    (.column 2) (.column 3) "0.00" "400.00" ⟨false, 0, 2⟩ ⟨false, 40000, 2⟩ ⟨false, 0, 2⟩ rfl (by decide +kernel) (by decide +kernel)
+    (by decide +kernel) (by decide +kernel) C16_credit_zero_loses_debit
+  revert this
+  decide +kernel
+
 open Cells in
 /-- **C16_template_accepts_exactly**: `Template::from_str` accepts exactly the sequences of maximal non-empty brace-free
 literal runs and `{key}` references with a valid key (positive column number within `usize`, or one of `date`, `payee`,
